@@ -15,6 +15,8 @@ class P(vlib.Prop):
         dict(name="artifacts", cmd="c12", args=lambda t, s: ["-stage", "artifacts"]),
         dict(name="config", cmd="c12", args=lambda t, s: ["-stage", "config"]),
         dict(name="scan", cmd="c12", args=lambda t, s: ["-stage", "scan"]),
+        dict(name="time", cmd="c12", args=lambda t, s: ["-stage", "time"]),
+        dict(name="shlex", cmd="c12", args=lambda t, s: ["-stage", "shlex"]),
     )
     assumptions = (
         "descriptor digests/sizes, diff-ids, JSON and tar encodings are computed by go-containerregistry / cosign / archive/tar and are outside the model: they are re-read and recomputed by the harness (exploration, not proof)",
